@@ -777,13 +777,23 @@ def _zero_once(ck, v, dead, meta, what):
 def _run_zero1(case, ck):
     nx, ny = case["nx"], case["ny"]
     acc = []
-    for kind in ("ramp", "bumpy", "ints", "ints8"):
-        v = _vals("ints" if kind == "ints8" else kind, nx, ny)
+    for kind in ("ramp", "bumpy", "ints", "ints8", "ramp-tiny", "ramp-huge",
+                 "ramp-dim"):
+        v = _vals("ints" if kind == "ints8" else kind.split("-")[0], nx, ny)
         if kind == "ints8":
             v = v.astype(np.uint8)
+        elif kind == "ramp-tiny":       # intensities in very small units
+            v = v * 2.0 ** -40
+        elif kind == "ramp-huge":
+            v = v * 2.0 ** 40
+        elif kind == "ramp-dim":        # one live pixel is very dim
+            v = np.array(v, dtype=float)
+            v[nx // 2, (ny - 1) // 2] = 3e-9
         assert (v > 0).all()
         for meta in META:
             if kind != "ramp" and meta == "M1":
+                continue
+            if "-" in kind and meta != META[0]:
                 continue
             acc.append(_zero_once(ck, v, [], meta, "zero_filter(%s %dx%d %s,"
                                   " no dead pixel)" % (kind, nx, ny, meta)))
